@@ -68,7 +68,7 @@ def session_burst(rng, version, hist):
             script.append(("L", f"{node};{child};1;{rng.choice([0, 1])};{int(sub)};"
                                 f"{gw.valid_payload_for(rng, const, 1, sub)}\n"))
         elif r < 0.93:
-            script.append(("U", [node], t, v, rng.choice([None, None, img[:5]])))
+            script.append(("U", [node], t, v, rng.choice([None, None, img[:5], b""])))
         else:
             script.append(("L", f"{node};255;0;0;17;{version}\n"))
     out = list(hist)
@@ -153,6 +153,8 @@ def c10_oracle(hist, obs, version):
             except ValueError:
                 ok = False
             ok = ok and 0 <= fwt <= 0xFFFF and 0 <= fwv <= 0xFFFF
+            if image is not None and len(image) == 0:
+                ok = False       # a firmware file without data: update_fw does nothing
             if ok and image is not None:
                 data = gw_spec.pad_fw(image)
                 ok = len(data) // 16 <= 0xFFFF
